@@ -1052,6 +1052,54 @@ class ProgGen(object):
                 self.funs.append(f)
                 self.items.append(("f", f))
 
+    def deep_drivers(self):
+        """(emphasis "deep") a function whose body nests immediately applied closures five to seven deep; every level reads the
+        parameters of all enclosing levels and assigns variables of the outermost function and of the file."""
+        r = self.r
+        gs = [x for x, (t, a) in self.gscope.vars.items() if t == SI and a]
+        if not gs:
+            x = self.fresh("g")
+            self.gscope.vars[x] = (SI, True)
+            self.items.append(("t", {"d": "var", "x": x, "t": SI, "init": lit(SI, r.randint(-5, 5))}))
+            gs = [x]
+        for _ in range(2):
+            depth = r.randint(5, 7)
+            g_ = r.choice(gs)
+            p0 = self.fresh("p")
+            vs = [self.fresh("v") for _ in range(2)]
+            ps = [self.fresh("p") for _ in range(depth)]
+
+            def level(k):
+                seen = [p0] + ps[:k + 1]
+                ssum = var(seen[0])
+                for q in seen[1:]:
+                    ssum = prim("si.add", ssum, var(q))
+                if k == depth - 1:
+                    es = [{"e": "asg", "x": g_, "v": prim("si.add", var(g_), var(ps[k]))},
+                          {"e": "asg", "x": vs[0], "v": prim("si.add", var(vs[0]), lit(SI, 1))},
+                          ssum]
+                else:
+                    inner = {"e": "callv", "f": level(k + 1), "args": [prim("si.add", var(ps[k]), lit(SI, r.randint(1, 3)))]}
+                    es = []
+                    if r.random() < 0.6:
+                        es.append({"e": "asg", "x": vs[k % 2], "v": prim("si.add", var(vs[k % 2]), var(ps[k]))})
+                    es.append(prim("si.add", inner, ssum) if r.random() < 0.5 else prim("si.sub", ssum, inner))
+                return {"e": "lam", "ps": [ps[k]], "pts": [SI], "rt": SI, "body": {"e": "seq", "t": SI, "es": es}}
+            res = self.fresh("v")
+            body = {"e": "let", "x": vs[0], "t": SI, "v": lit(SI, 0), "body":
+                    {"e": "let", "x": vs[1], "t": SI, "v": lit(SI, 0), "body":
+                     {"e": "let", "x": res, "t": SI, "v": {"e": "callv", "f": level(0), "args": [prim("si.add", var(p0), lit(SI, 1))]}, "body":
+                      {"e": "seq", "t": SI, "es": [
+                          {"e": "print", "args": [var(vs[0]), {"e": "str", "s": " "}, var(vs[1]), {"e": "str", "s": " "}, var(g_), {"e": "str", "s": "\n"}]},
+                          var(res)]}}}}
+            f = {"name": self.fresh("f"), "ps": [p0], "pts": [SI], "rt": SI, "pure": False, "body": body}
+            f["oname"] = f["name"]
+            self.funs.append(f)
+            self.items.append(("f", f))
+            for a in (r.randint(-3, 3), r.randint(10, 99)):
+                self.items.append(("t", {"d": "stmt", "x": {"e": "print", "args": [
+                    {"e": "call", "fi": len(self.funs), "args": [lit(SI, a)]}, {"e": "str", "s": "\n"}]}}))
+
     def redundancy_drivers(self):
         """(emphasis "cse") functions in which a pure expression is computed on a path that may not run (the body of a loop with
         a filter, a loop over a possibly empty list, a branch) and again after the join, called with arguments for which the
@@ -1241,6 +1289,8 @@ class ProgGen(object):
             self.param_drivers()
         if "cse" in self.emph:
             self.redundancy_drivers()
+        if "deep" in self.emph:
+            self.deep_drivers()
         # make sure something is printed
         pr = [x for x, (t, a) in self.gscope.vars.items() if t in (SI, BI, STR)]
         args = []
